@@ -12,7 +12,9 @@ use model::*;
 use serde_json::{json, Value};
 use std::collections::BTreeMap;
 
-pub const MACRO_PROFILES: [&str; 2] = ["dev", "release"];
+/// second pass: the macro built in the release profile (no overflow checks inside the macro) *and* the generated
+/// crates compiled as dependencies rather than as primary packages
+pub const MACRO_PROFILES: [&str; 2] = ["dev", "release-asdep"];
 
 /// a constant expression of the field's setter type
 pub fn arg_expr(l: &Layout, ty: &FieldTy) -> String {
@@ -212,6 +214,27 @@ fn c14_systematic() -> Vec<Layout> {
                     zero_pad: false,
                 };
                 v.push(lay(b, vec![f]));
+            }
+            // a list whose entries continue each other (one contiguous run written in pieces) as array element:
+            // stride below / equal to / above the total width — elements overlap / touch / leave a gap
+            for (st, k) in [(4u32, 3u32), (8, 2), (6, 2), (9, 1 + (b - 8) / 9)] {
+                if k < 2 || 7 + (k - 1) * st >= b {
+                    continue;
+                }
+                let f = Field { name: "x".into(), kw_bit: false, list: true, ranges: vec![Rng::new(0, 3), Rng::new(4, 7)], array: Some(ArrayDecl { count: k, stride: Some(st), colon: false }), ty: uty(8), access: Access::RW, arg_order: 0, opt_path: 0, huge: None, zero_pad: false };
+                v.push(lay(b, vec![f.clone()]));
+                let mut g = f;
+                g.ranges = vec![Rng::new(4, 7), Rng::new(0, 3)];
+                v.push(lay(b, vec![g]));
+            }
+            // a readable field called `build` (a version register): `.build()` on an incomplete builder must still
+            // not type-check
+            if b > 24 {
+                v.push(lay(b, vec![fld("major", 16, 8, uty(8), Access::RW), fld("minor", 8, 8, uty(8), Access::RW), fld("build", 0, 8, uty(8), Access::RW), fld("rest", 24, (b - 24).min(64), uty((b - 24).min(64)), Access::R)]));
+            } else if b == 24 {
+                v.push(lay(b, vec![fld("major", 16, 8, uty(8), Access::RW), fld("minor", 8, 8, uty(8), Access::RW), fld("build", 0, 8, uty(8), Access::RW)]));
+            } else {
+                v.push(lay(b, vec![fld("major", 8, b - 8, uty(b - 8), Access::RW), fld("build", 0, 8, uty(8), Access::RW)]));
             }
             // overlapping ranges that are not neighbours in the list; elements colliding around a middle element
             let na = Field { name: "x".into(), kw_bit: false, list: true, ranges: vec![Rng::new(0, 3), Rng::new(8, 11), Rng::new(2, 5)], array: None, ty: uty(12), access: Access::RW, arg_order: 0, opt_path: 0, huge: None, zero_pad: false };
@@ -418,7 +441,7 @@ pub fn run_c14(rc: &RunCtx) -> Outcome {
             if !steps.is_empty() {
                 probes.push(Probe {
                     name: "conjure-final-state".into(),
-                    code: format!("pub fn p_conjure() -> S {{ fn conjure<T: Default>(_: fn() -> T) -> T {{ T::default() }} conjure(|| {}).build() }}", chain(l, &steps)),
+                    code: format!("pub fn p_conjure() {{ fn conjure<T: Default>(_: fn() -> T) -> T {{ T::default() }} let _ = conjure(|| {}).build(); }}", chain(l, &steps)),
                     must_compile: false,
                     what: "build() on a complete builder state created by Default::default() instead of by the with_ steps".into(),
                 });
@@ -427,7 +450,7 @@ pub fn run_c14(rc: &RunCtx) -> Outcome {
             for k in probe_positions(steps.len()) {
                 probes.push(Probe {
                     name: format!("prefix-{}", k),
-                    code: format!("pub fn p_prefix{}() -> S {{ {}.build() }}", k, chain(l, &steps[..k])),
+                    code: format!("pub fn p_prefix{}() {{ let _ = {}.build(); }}", k, chain(l, &steps[..k])),
                     must_compile: false,
                     what: format!("build() after only {} of {} steps", k, steps.len()),
                 });
@@ -439,7 +462,7 @@ pub fn run_c14(rc: &RunCtx) -> Outcome {
                     st.remove(k);
                     probes.push(Probe {
                         name: format!("skip-{}", k),
-                        code: format!("pub fn p_skip{}() -> S {{ {}.build() }}", k, chain(l, &st)),
+                        code: format!("pub fn p_skip{}() {{ let _ = {}.build(); }}", k, chain(l, &st)),
                         must_compile: false,
                         what: format!("chain without step {} ({})", k, l.fields[steps[k]].name),
                     });
@@ -455,7 +478,7 @@ pub fn run_c14(rc: &RunCtx) -> Outcome {
                     }
                     probes.push(Probe {
                         name: format!("subseq-{}", k),
-                        code: format!("pub fn p_sub{}() -> S {{ {}.build() }}", k, chain(l, &st)),
+                        code: format!("pub fn p_sub{}() {{ let _ = {}.build(); }}", k, chain(l, &st)),
                         must_compile: false,
                         what: format!("chain with only steps {:?}", st),
                     });
@@ -750,7 +773,7 @@ pub fn run_c17(rc: &RunCtx) -> Outcome {
                 st.insert(pos, fi);
                 probes.push(Probe {
                     name: format!("chain-with-{}", if f.access == Access::R { "r" } else { "none" }),
-                    code: format!("pub fn p_ins{}() -> S {{ {}.build() }}", fi, chain(l, &st)),
+                    code: format!("pub fn p_ins{}() {{ let _ = {}.build(); }}", fi, chain(l, &st)),
                     must_compile: false,
                     what: format!("builder chain with a step for the non-writable field {}", f.name),
                 });
